@@ -510,7 +510,7 @@ pub fn synthetic_project(seed: u64) -> Project {
                     }
                     10 if use_enum => "Color".to_string(),
                     11 if poison && rng.chance(1, 2) => ["Date", "bigint", "Map<string, number>", "Set<string>"][rng.below(4)].to_string(),
-                    _ => match rng.below(14) {
+                    _ => match rng.below(16) {
                         // template literals with regex metacharacters and slashes in the constant parts
                         0 => "`/api/${string}/items`".to_string(),
                         1 => "`${number}px`".to_string(),
@@ -524,6 +524,8 @@ pub fn synthetic_project(seed: u64) -> Project {
                         8 if use_enum => "Flags.Read".to_string(),
                         9 if use_enum => "Flags".to_string(),
                         10 => "\"it's\" | \"say \\\"hi\\\"\" | \"back\\\\slash\"".to_string(),
+                        11 => "\"line\\nbreak\" | \"tab\\t\" | \"\\u2028sep\" | \"\u{1F600}\" | \"</script>\"".to_string(),
+                        12 => "-0 | 1e21 | 0.1 | -1.5e-7 | 123456789012345680000".to_string(),
                         _ => prim[rng.below(prim.len() - 1)].to_string(),
                     },
                 };
